@@ -120,3 +120,9 @@ Definition check_merged (member : prog -> bool) (L : list prog) (merges : list (
   && forallb member out
   && check_merged_prefix merges 0 out
   && forallb (fun p => memb prog_eqb p out || existsb (fun m : nat * prog => contains_sub p (snd m)) merges) L.
+
+(** Membership test handed to the checkers by the glue: a member of the
+    grammar, built without empty application nodes, of depth within the fuel
+    used to enumerate the language list. *)
+Definition member_of (fuel : nat) (tbl : table) (x : nt) (p : prog) : bool :=
+  contains tbl x p && normal p && Nat.leb (pdepth p) fuel.
